@@ -23,7 +23,7 @@ ASSUMPTIONS = [
     'four-column bin edges are centre +/- width/2 in wavelength, reported as 10000/edge in ascending wavenumber; three-column edges are wavelength mid-points (ends mirrored)',
     'binner alignment judged with the C05 overlap-mean reference on a fine native grid (rtol 1e-9)',
 ]
-REQUIRED = {'tied-wavelengths': 0.02, 'source:array': 0.2, 'source:text': 0.1, 'source:hdf5-class': 0.08, 'source:hdf5-func': 0.08,
+REQUIRED = {'tied-wavelengths': 0.015, 'source:array': 0.2, 'source:text': 0.1, 'source:hdf5-class': 0.08, 'source:hdf5-func': 0.08,
             'cols:4': 0.3, 'cols:3': 0.05, 'permuted': 0.4}
 
 
@@ -41,7 +41,7 @@ def _case(draw):
     return {'source': src, 'wl0': wl0, 'ratios': ratios, 'noise': noise, 'enoise': enoise, 'cols': cols,
             'wfac': wfac, 'perm': perm, 'uniform': draw(st.sampled_from([False, False, False, True])),
             # two rows sharing exactly the same wavelength (two instruments reporting the same point)
-            'tie': draw(st.sampled_from([None, None, None, None, [draw(st.integers(0, 59)), draw(st.integers(0, 59))]]))}
+            'tie': draw(st.sampled_from([None, None, [draw(st.integers(0, 59)), draw(st.integers(0, 59))]]))}
 
 
 def strategy(tier):
